@@ -32,6 +32,15 @@ func init() {
 		r2 := bmtree.PathsOf(a[1].Strs(), a[2].I32(), a[3].I32(), a[4].Bool())
 		return L(U64s(r1), U64s(r2))
 	}
+	// [s, from, h] -> [PathLen, PathHeight, PathBits, PathMask] of PathOf(s, from, h)
+	Exec["bmtree.PathOf/fields"] = func(a []V) string {
+		p := bmtree.PathOf(a[0].Str(), a[1].I32(), a[2].I32())
+		return L(I32(bmtree.PathLen(p)), I32(bmtree.PathHeight(p)), U(bmtree.PathBits(p)), U(bmtree.PathMask(p)))
+	}
+	// [sorted keys with a common from-bit prefix, from, h] -> PathsOf(keys, from, h, true)
+	Exec["bmtree.PathsOf/sorted"] = func(a []V) string {
+		return U64s(bmtree.PathsOf(a[0].Strs(), a[1].I32(), a[2].I32(), true))
+	}
 	Register("C11", genC11)
 }
 
@@ -85,6 +94,7 @@ func c11All(g *Gen, s []byte, from, w int, bucket string, withPath bool) {
 	if withPath {
 		g.Do("bmtree.PathOf", L(sv, Int(from), Int(w)), key)
 		g.Do("bmtree.PathOf/str", L(sv, Int(from), Int(w)), key)
+		g.Do("bmtree.PathOf/fields", L(sv, Int(from), Int(w)), key)
 	}
 }
 
@@ -178,6 +188,54 @@ func c11Held(g *Gen) {
 				g.Do("bmtree.PathsOf/held", L(ByteSlices(k1), ByteSlices(k2), Int(from), Int(h), B(dd)), key)
 			}
 		}
+	}
+}
+
+// c11Sorted: key sets sorted in Go's string order whose first `from` bits are equal (the way a trie level is
+// built for the keys below one node): a common byte prefix, then a byte whose top from%8 bits are common, then
+// tails that share prefixes, repeat, or are proper prefixes of one another.
+func c11Sorted(g *Gen) {
+	n := g.N(1200, 15000)
+	for k := 0; k < n; k++ {
+		from := g.R.Pick(0, 0, 0, 1, 7, 8, 9, 15, 16, g.R.Range(0, 40))
+		h := g.R.Pick(1, 4, 8, 16, 31, 32, 32, g.R.Range(0, 32))
+		al := alphabets[g.R.Intn(len(alphabets))]
+		np, r := from/8, from%8
+		pre := g.R.Bytes(np, al)
+		var top byte
+		if r > 0 {
+			top = byte(g.R.Intn(256)) &^ (0xff >> uint(r))
+		}
+		nk := g.R.Range(0, 9)
+		keys := make([][]byte, 0, nk+2)
+		for i := 0; i < nk; i++ {
+			var tail []byte
+			if i > 0 && g.R.Intn(3) == 0 { // share a prefix of the previous tail / repeat it
+				p := keys[i-1][np:]
+				if r > 0 {
+					p = p[1:]
+				}
+				tail = append(append([]byte(nil), p[:g.R.Intn(len(p)+1)]...), g.R.Bytes(g.R.Range(0, 2), al)...)
+			} else {
+				tail = g.R.Bytes(g.R.Range(0, 5), al)
+			}
+			key := append([]byte(nil), pre...)
+			if r > 0 {
+				key = append(key, top|(byte(g.R.Pick(0, 0xff, g.R.Intn(256)))&(0xff>>uint(r))))
+			}
+			keys = append(keys, append(key, tail...))
+		}
+		sort.Slice(keys, func(i, j int) bool { return string(keys[i]) < string(keys[j]) })
+		ps := make(map[uint64]bool)
+		for _, key := range keys {
+			ps[bmtree.PathOf(string(key), int32(from), int32(h))] = true
+		}
+		key := ""
+		if len(keys) >= 2 && h > 0 {
+			key = fmt.Sprintf("sorted/al%d/n%d/distinct%d/w%s", from&7, minInt(len(keys), 5), minInt(len(ps), 4), map[bool]string{true: "32", false: "lt32"}[h == 32])
+		}
+		g.Stat("pathsof-sorted")
+		g.Do("bmtree.PathsOf/sorted", L(ByteSlices(keys), Int(from), Int(h)), key)
 	}
 }
 
@@ -342,4 +400,7 @@ func genC11(g *Gen) {
 		h := g.R.Pick(0, 1, 8, 16, 31, 32, 32, g.R.Range(0, 32), g.R.Range(0, 32))
 		c11Paths(g, keys, from, h, "pathsof")
 	}
+
+	// (6) PathsOf on sorted keys with a common prefix (relational checker)
+	c11Sorted(g)
 }
